@@ -279,3 +279,17 @@ func topBlockOf(act *Summary, ins ssa.Instruction) *ssa.BasicBlock {
 	}
 	return ins.Block()
 }
+
+// eachInstrG visits the instructions of fn, of its closures and of the new
+// helpers it calls (its helper group).  Role anchors ("the callee of X with
+// signature S") are resolved over the group so that they survive the
+// extraction of a helper; the new helpers themselves never fill a role.
+func eachInstrG(p *Prog, fn *ssa.Function, f func(b *ssa.BasicBlock, in ssa.Instruction)) {
+	for _, gf := range groupFuncs(p, fn) {
+		if gf != fn && gf.Parent() != nil && !p.IsNewHelper(gf) {
+			// closures of vocabulary functions keep being visited by the callers that want them
+			continue
+		}
+		eachInstr(gf, f)
+	}
+}
